@@ -34,7 +34,7 @@ package client
 //@   requires forall a int :: 0 <= a && a < len(b) ==> len(indexMap) <= len(b[a])
 //@   requires forall p int :: 0 <= p && p < len(indexMap) ==> indexMap[p] < numParts
 //@   ensures len(_b) == len(b) && nonNilBalances(_b) && forall a int :: 0 <= a && a < len(b) ==> len(_b[a]) == numParts
-//@   ensures forall a, p int :: 0 <= a && a < len(b) && 0 <= p && p < len(indexMap) && lastOcc(indexMap, p, len(indexMap)) ==> _b[a][indexMap[p]] == b[a][p]
+//@   ensures forall a, p int :: {b[a][p]} 0 <= a && a < len(b) && 0 <= p && p < len(indexMap) && lastOcc(indexMap, p, len(indexMap)) ==> _b[a][indexMap[p]] == b[a][p]
 //@   ensures forall a, q int :: 0 <= a && a < len(b) && 0 <= q && q < numParts && unmapped(indexMap, q, len(indexMap)) ==> val(_b[a][q]) == 0
 //@   loop 1
 //@     modifies _b[*]
@@ -236,7 +236,7 @@ package client
 // channel participant mapped to it (last position wins when several map to the same parent index; none: unchanged).
 //@ pred movedBy(cur channel.Balances, n channel.Balances, virt channel.Balances, m []channel.Index, sign int) =
 //@   sameDims(cur, n) && len(virt) == len(cur) &&
-//@   (forall a, p int :: 0 <= a && a < len(cur) && 0 <= p && p < len(m) && lastOcc(m, p, len(m)) ==> val(n[a][m[p]]) == val(cur[a][m[p]]) + sign * val(virt[a][p])) &&
+//@   (forall a, p int :: 0 <= a && a < len(cur) && 0 <= p && p < len(m) && lastOcc(m, p, len(m)) ==> val(n[a][m[p]]) == (sign == 1 ? val(cur[a][m[p]]) + val(virt[a][p]) : val(cur[a][m[p]]) - val(virt[a][p]))) &&
 //@   (forall a, q int :: 0 <= a && a < len(cur) && 0 <= q && q < len(cur[a]) && unmapped(m, q, len(m)) ==> val(n[a][q]) == val(cur[a][q]))
 
 // fundingOK: what the statement of C07 demands of an automatically accepted virtual channel funding update.
